@@ -111,6 +111,14 @@ pub fn check_order(obs: &ObsMap) -> Vec<Fail> {
             attrs.sort();
             for (ord, ak) in attrs {
                 seq.push((ak, ord, "attribute"));
+                // the pieces of the attribute's value follow it (and precede the next attribute)
+                if let Some(ao) = obs.get(&ak) {
+                    for pk in &ao.children {
+                        if let Some(po) = obs.get(pk) {
+                            seq.push((*pk, po.order, "attribute value piece"));
+                        }
+                    }
+                }
             }
             for c in o.children.iter().rev() {
                 stack.push(*c);
